@@ -46,7 +46,7 @@ def encode(case, obs=None):
         return [0, case["maxsize"], [enc_op(o) for o in case["ops"]]]
     if case["kind"] == "pm":
         return [2, case["num_pools"], [enc_op(o) for o in case["ops"]]]
-    if case["kind"] == "pmreq":
+    if case["kind"] in ("pmreq", "pmkw"):
         return [2, case["num_pools"], []]          # (never sent to the model)
     order = obs[0] if (obs and isinstance(obs, list) and obs and isinstance(obs[0], list)) else []
     return [1, case["maxsize"], [[enc_op(o) for o in p] for p in case["progs"]], order]
@@ -180,6 +180,28 @@ def impl_pm(case):
             out.append([[0], len(pm.pools)])
     audit = pm_audit(pm, registry)
     return out, audit
+
+
+def impl_pmkw(case):
+    """connection_from_url with and without per-request pool_kwargs whose dict-valued settings are written in either order"""
+    import urllib3
+    pm = urllib3.PoolManager(num_pools=case["num_pools"])
+    seen = []
+    out = []
+    for o in case["ops"]:
+        kw = None
+        if o[0] == "gock":
+            items = [("A", "1"), ("B", "2"), ("C", "3")]
+            if o[2]:
+                items.reverse()
+            kw = {"headers": dict(items)}
+        p = pm.connection_from_url(url_of(o[1]), pool_kwargs=kw)
+        for i, q in enumerate(seen):
+            if q is p:
+                out.append([i, len(pm.pools)]); break
+        else:
+            seen.append(p); out.append([len(seen) - 1, len(pm.pools)])
+    return out
 
 
 def impl_pmreq(case):
@@ -356,13 +378,15 @@ def impl(case):
         out, audit = impl_pmreq(case)
         _STASH[id(case)] = audit
         return out
+    if case["kind"] == "pmkw":
+        return impl_pmkw(case)
     obs, problems = impl_conc(case)
     _STASH[id(case)] = problems
     return obs
 
 
 def in_model_domain(case):
-    return case["kind"] != "pmreq"
+    return case["kind"] not in ("pmreq", "pmkw")
 
 
 _STASH = {}
@@ -467,6 +491,23 @@ def oracle(case, obs):
             if obs[i] != exp:
                 return "PoolManager op #%d %r: got %r, reference LRU cache says %r" % (i, o, obs[i], exp)
         return audit
+    if case["kind"] == "pmkw":
+        # equal connection parameters (whatever order a dict-valued setting was written in) -> the same pool while it is cached
+        ref = RefLRU(case["num_pools"])
+        nxt = 0
+        for i, o in enumerate(case["ops"]):
+            key = (o[1], o[0] == "gock")
+            hit = ref._find(key) is not None
+            if hit:
+                want = [v for k, v in ref.items if k == key][0]
+                ref.touch(key)
+            else:
+                want = nxt; nxt += 1
+                ref.put(key, want)
+            if obs[i] != [want, len(ref.items)]:
+                return "PoolManager op #%d %r: pool #%d with %d cached, the reference cache says pool #%d with %d (equal parameters must give the same pool)" % (
+                    i, o, obs[i][0], obs[i][1], want, len(ref.items))
+        return None
     if case["kind"] == "pmreq":
         audit = _STASH.pop(id(case), None)
         ref = RefLRU(case["num_pools"])
@@ -513,7 +554,7 @@ def nontrivial(case, obs):
         if any(o[1] or o[0] == [2] or o[0][0] == 1 for o in obs):
             return h
         return None
-    if case["kind"] in ("pm", "pmreq"):
+    if case["kind"] in ("pm", "pmreq", "pmkw"):
         return h if len(case["ops"]) > 1 else None
     return h if len(obs[0]) > 1 else None
 
@@ -621,6 +662,13 @@ def cases(rng, tier):
         for j in range(rng.randint(2, 7)):
             ops.append(["clear"] if rng.random() < 0.12 else ["req", rng.choice(KEYS), rng.random() < 0.3])
         out.append({"kind": "pmreq", "num_pools": m, "ops": ops})
+    # per-request settings whose dict values are written in either order
+    for i in range(npm // 2):
+        m = rng.choice([1, 2, 3])
+        ops = []
+        for j in range(rng.randint(2, 8)):
+            ops.append(["gock", rng.choice(KEYS[:2]), rng.random() < 0.5] if rng.random() < 0.6 else ["goc", rng.choice(KEYS[:2])])
+        out.append({"kind": "pmkw", "num_pools": m, "ops": ops})
     # pools with two slots: streamed responses held across other requests, and connections the server drops, leave live connections
     # below empty slots in a pool's queue before the pool is evicted or cleared
     for tail in ([["req", 2, False]], [["clear"]], [["req", 2, False], ["req", 3, False]]):
@@ -662,7 +710,7 @@ def cases(rng, tier):
 
 
 def shrinks(case):
-    if case["kind"] in ("seq", "pm", "pmreq"):
+    if case["kind"] in ("seq", "pm", "pmreq", "pmkw"):
         ops = case["ops"]
         for i in range(len(ops)):
             c = dict(case); c["ops"] = ops[:i] + ops[i + 1:]
